@@ -7,7 +7,11 @@ struct array_s {
     int extra_ref;
 #endif
     unsigned short size;
+#if defined(TAEDLAR_NEOLITH_VERIF) && defined(VERIF_ARRAY_ITEMS)
+    svalue_t item[VERIF_ARRAY_ITEMS];	/* verification encoding: typed blocks of fixed capacity */
+#else
     svalue_t item[1];
+#endif
 };
 
 extern array_t the_null_array;
@@ -55,9 +59,17 @@ array_t *match_regexp(array_t *, char *, int);
 array_t *reg_assoc(char *, array_t *, array_t *, svalue_t *);
 void dealloc_array(array_t *);
 
+#if defined(TAEDLAR_NEOLITH_VERIF) && defined(VERIF_ARRAY_ITEMS)
+/* verification encoding: the allocator model hands out typed blocks */
+array_t *verif_alloc_array(size_t);
+array_t *verif_resize_array(array_t *, size_t);
+#define ALLOC_ARRAY(nelem) verif_alloc_array(nelem)
+#define RESIZE_ARRAY(vec, nelem) verif_resize_array(vec, nelem)
+#else
 #define ALLOC_ARRAY(nelem) \
     (array_t *)DXALLOC(sizeof (array_t) + \
 	  sizeof(svalue_t) * (nelem - 1), TAG_ARRAY, "ALLOC_ARRAY")
 #define RESIZE_ARRAY(vec, nelem) \
     (array_t *)DREALLOC(vec, sizeof (array_t) + \
 	  sizeof(svalue_t) * (nelem - 1), TAG_ARRAY, "RESIZE_ARRAY")
+#endif
